@@ -266,6 +266,7 @@ func RunC20(d *Driver) *Report {
 		}
 	}
 	nprog := c20ProgramChoices(r)
+	r.Rule += "; every sequence of two and three different marked letters of a..e (every writing order of every such set, also with letters that have no choice) on four output assignments: the verdict is that of the set"
 	r.Rule += fmt.Sprintf("; %d verifications of questions whose choices are programs that are really run, the same programs used in a text and in an SVG question of one process, in both orders, all subsets of marks", nprog)
 	r.DriverCalls = d.N
 	return r
